@@ -1024,100 +1024,119 @@ func c11RuleG(w *World, r *Report) {
 			default:
 				continue
 			}
-			recv := valueRoot(resolveParam(recvArg, ic.bs))
-			if mi, ok := stripIdentity(resolveParam(recvArg, ic.bs)).(*ssa.MakeInterface); ok {
-				recv = valueRoot(mi.X)
+			l := stripIdentity(resolveParam(lstArg, ic.bs))
+			lOrigin := unit.originOf(l, 0)
+			// the recogniser(s) the call installs on: the receiver itself, or - when the receiver is the element of a list the
+			// function walks from end to end - every member put into that list (at: where it got in, which is what may be conditional)
+			type target struct {
+				v      ssa.Value
+				at     ssa.Instruction
+				ignore *ssa.BasicBlock
 			}
-			kind := ""
-			// the recogniser's own static type decides (it may be a member of a record, whose root is the record)
-			direct := stripIdentity(resolveParam(recvArg, ic.bs))
-			if mi, ok := direct.(*ssa.MakeInterface); ok {
-				direct = stripIdentity(mi.X)
+			targets := []target{{resolveParam(recvArg, ic.bs), ic.call, nil}}
+			if ld, ok := stripIdentity(recvArg).(*ssa.UnOp); ok && ld.Op == token.MUL {
+				if ia, ok := ld.X.(*ssa.IndexAddr); ok && walksWholeList(ia) {
+					if ms, ok := localListMembers(ia.X, 0); ok && len(ms) > 0 {
+						var hdr *ssa.BasicBlock
+						switch ix := ia.Index.(type) {
+						case *ssa.BinOp:
+							if p, ok := ix.X.(*ssa.Phi); ok {
+								hdr = p.Block()
+							}
+						case *ssa.Phi:
+							hdr = ix.Block()
+						}
+						targets = targets[:0]
+						for _, m := range ms {
+							targets = append(targets, target{resolveParam(m.v, ic.bs), m.at, nil})
+						}
+						// the walk itself must not be left to a condition either (the loop's own header aside)
+						targets = append(targets, target{nil, ic.call, hdr})
+					}
+				}
 			}
-			// walk from the receiver (an embedded BaseRecognizer) up the chain of member accesses to the recogniser itself
-			chain := []ssa.Value{direct}
-			for v, i := direct, 0; i < 8; i++ {
-				switch x := v.(type) {
-				case *ssa.UnOp:
-					v = x.X
-				case *ssa.FieldAddr:
-					v = x.X
-				case *ssa.Field:
-					v = x.X
-				default:
-					i = 8
+			var kindsOfCall []string
+			for _, tg := range targets {
+				if tg.v == nil {
+					// the walking call: judged for every kind its list carries
+					for _, kind := range kindsOfCall {
+						c11InstallCond(w, kind, tg.at, tg.ignore, conditional)
+					}
 					continue
 				}
-				chain = append(chain, v)
-			}
-			chain = append(chain, recv)
-			for _, cand := range chain {
-				if kind != "" {
-					break
+				recv := valueRoot(tg.v)
+				if mi, ok := stripIdentity(tg.v).(*ssa.MakeInterface); ok {
+					recv = valueRoot(mi.X)
 				}
-				switch {
-				case typeIs(cand.Type(), grammarPath, "PacketDslLexer"):
-					kind = "lexer"
-				case typeIs(cand.Type(), grammarPath, "PacketDslParser"):
-					kind = "parser"
+				kind := ""
+				// the recogniser's own static type decides (it may be a member of a record, whose root is the record)
+				direct := stripIdentity(tg.v)
+				if mi, ok := direct.(*ssa.MakeInterface); ok {
+					direct = stripIdentity(mi.X)
 				}
-			}
-			if os.Getenv("FINLINT_DEBUG_G") != "" {
-				fmt.Fprintf(os.Stderr, "G: call %s in %s direct=%T %s recv=%T %s kind=%q gl=%d\n", ic.call, fnKey(ic.call.Parent()), direct, direct.Type(), recv, recv.Type(), kind, len(gateListeners))
-			}
-			if kind == "" {
-				continue
-			}
-			l := stripIdentity(resolveParam(lstArg, ic.bs))
-			before := installed[kind]
-			checkCond := func(kind string, call ssa.CallInstruction) {
-				// the installation is not left to a condition: the only branches it may depend on are the ok edge of a checked
-				// assertion (getting at the concrete recogniser), `err == nil` and a non-nil test
-				if !installed[kind] || before {
-					return
-				}
-				cd := computeCD(call.Parent())
-				for _, d := range cd.allCtrl(call.Block()) {
-					cond := branchCond(d.Branch)
-					if cond == nil {
+				// walk from the receiver (an embedded BaseRecognizer) up the chain of member accesses to the recogniser itself
+				chain := []ssa.Value{direct}
+				for v, i := direct, 0; i < 8; i++ {
+					switch x := v.(type) {
+					case *ssa.UnOp:
+						v = x.X
+					case *ssa.FieldAddr:
+						v = x.X
+					case *ssa.Field:
+						v = x.X
+					default:
+						i = 8
 						continue
 					}
-					if ex, ok := cond.(*ssa.Extract); ok && ex.Index == 1 && d.Succ == 0 {
-						if ta, ok := ex.Tuple.(*ssa.TypeAssert); ok && ta.CommaOk {
-							continue
-						}
-					}
-					if v, nn, ok := nilTest(cond); ok {
-						if isErrorType(v.Type()) && d.Succ == 1-nn {
-							continue
-						}
-						if !isErrorType(v.Type()) && d.Succ == nn {
-							continue
-						}
-					}
-					conditional[kind] = w.instrPos(d.Branch.Instrs[len(d.Branch.Instrs)-1])
+					chain = append(chain, v)
 				}
-			}
-			for gl := range gateListeners {
-				if stripIdentity(gl) == l || (cellOf(gl) != nil && cellOf(gl) == cellOf(l)) {
-					installed[kind] = true
+				chain = append(chain, recv)
+				for _, cand := range chain {
+					if kind != "" {
+						break
+					}
+					switch {
+					case typeIs(cand.Type(), grammarPath, "PacketDslLexer"):
+						kind = "lexer"
+					case typeIs(cand.Type(), grammarPath, "PacketDslParser"):
+						kind = "parser"
+					}
 				}
-				// the gate's listener is what an installing helper returned
-				if hc, ok := stripIdentity(gl).(*ssa.Call); ok {
-					if h := hc.Call.StaticCallee(); h != nil && within[h] && h == ic.call.Parent() {
-						for _, b := range h.Blocks {
-							if ret, ok := b.Instrs[len(b.Instrs)-1].(*ssa.Return); ok {
-								for _, rv := range ret.Results {
-									if stripIdentity(rv) == l {
-										installed[kind] = true
+				if os.Getenv("FINLINT_DEBUG_G") != "" {
+					fmt.Fprintf(os.Stderr, "G: call %s in %s direct=%T %s recv=%T %s kind=%q gl=%d\n", ic.call, fnKey(ic.call.Parent()), direct, direct.Type(), recv, recv.Type(), kind, len(gateListeners))
+				}
+				if kind == "" {
+					continue
+				}
+				before := installed[kind]
+				for gl := range gateListeners {
+					if stripIdentity(gl) == l || (cellOf(gl) != nil && cellOf(gl) == cellOf(l)) {
+						installed[kind] = true
+					}
+					// the same listener seen through the record that carries it from the installing helper to the gate
+					if o := unit.originOf(gl, 0); o != nil && o == lOrigin {
+						installed[kind] = true
+					}
+					// the gate's listener is what an installing helper returned
+					if hc, ok := stripIdentity(gl).(*ssa.Call); ok {
+						if h := hc.Call.StaticCallee(); h != nil && within[h] && h == ic.call.Parent() {
+							for _, b := range h.Blocks {
+								if ret, ok := b.Instrs[len(b.Instrs)-1].(*ssa.Return); ok {
+									for _, rv := range ret.Results {
+										if stripIdentity(rv) == l {
+											installed[kind] = true
+										}
 									}
 								}
 							}
 						}
 					}
 				}
+				if installed[kind] && !before {
+					kindsOfCall = append(kindsOfCall, kind)
+					c11InstallCond(w, kind, tg.at, tg.ignore, conditional)
+				}
 			}
-			checkCond(kind, ic.call)
 		}
 		for _, kind := range []string{"lexer", "parser"} {
 			key := fmt.Sprintf("%s: collecting listener installed on the %s", name, kind)
@@ -1130,6 +1149,113 @@ func c11RuleG(w *World, r *Report) {
 			}
 		}
 	}
+}
+
+// c11InstallCond: the installation (or the entry of a recogniser into the list that is installed on) is not left to a condition:
+// the only branches it may depend on are the ok edge of a checked assertion (getting at the concrete recogniser), `err == nil` and
+// a non-nil test; ignore is the header of the loop that walks the list.
+func c11InstallCond(w *World, kind string, at ssa.Instruction, ignore *ssa.BasicBlock, conditional map[string]string) {
+	cd := computeCD(at.Parent())
+	for _, d := range cd.allCtrl(at.Block()) {
+		if ignore != nil && d.Branch == ignore {
+			continue
+		}
+		cond := branchCond(d.Branch)
+		if cond == nil {
+			continue
+		}
+		if ex, ok := cond.(*ssa.Extract); ok && ex.Index == 1 && d.Succ == 0 {
+			if ta, ok := ex.Tuple.(*ssa.TypeAssert); ok && ta.CommaOk {
+				continue
+			}
+		}
+		if v, nn, ok := nilTest(cond); ok {
+			if isErrorType(v.Type()) && d.Succ == 1-nn {
+				continue
+			}
+			if !isErrorType(v.Type()) && d.Succ == nn {
+				continue
+			}
+		}
+		conditional[kind] = w.instrPos(d.Branch.Instrs[len(d.Branch.Instrs)-1])
+	}
+}
+
+type listMember struct {
+	v  ssa.Value
+	at ssa.Instruction
+}
+
+// localListMembers: everything a list built inside one function holds: the elements of the literal it starts as and what is
+// appended to it on the way (ok false: an origin that is not such a construction).
+func localListMembers(s ssa.Value, depth int) ([]listMember, bool) {
+	if depth > 6 {
+		return nil, false
+	}
+	switch x := stripIdentity(s).(type) {
+	case *ssa.Phi:
+		var out []listMember
+		seen := map[ssa.Value]bool{}
+		for _, e := range x.Edges {
+			if stripIdentity(e) == ssa.Value(x) {
+				continue
+			}
+			ms, ok := localListMembers(e, depth+1)
+			if !ok {
+				return nil, false
+			}
+			for _, m := range ms {
+				if !seen[m.v] {
+					seen[m.v] = true
+					out = append(out, m)
+				}
+			}
+		}
+		return out, true
+	case *ssa.Slice:
+		al, ok := x.X.(*ssa.Alloc)
+		if !ok {
+			return nil, false
+		}
+		if _, isArr := al.Type().(*types.Pointer).Elem().Underlying().(*types.Array); !isArr {
+			return nil, false
+		}
+		var out []listMember
+		for _, ref := range *al.Referrers() {
+			switch r := ref.(type) {
+			case *ssa.IndexAddr:
+				for _, r2 := range *r.Referrers() {
+					if st, ok := r2.(*ssa.Store); ok && st.Addr == ssa.Value(r) {
+						out = append(out, listMember{st.Val, st})
+					}
+				}
+			case *ssa.Slice, *ssa.DebugRef:
+			default:
+				return nil, false
+			}
+		}
+		return out, true
+	case *ssa.Call:
+		if bi, ok := x.Call.Value.(*ssa.Builtin); ok && bi.Name() == "append" && len(x.Call.Args) == 2 {
+			base, ok := localListMembers(x.Call.Args[0], depth+1)
+			if !ok {
+				return nil, false
+			}
+			more, ok := localListMembers(x.Call.Args[1], depth+1)
+			if !ok {
+				return nil, false
+			}
+			for _, m := range more {
+				base = append(base, listMember{m.v, x})
+			}
+			return base, true
+		}
+	case *ssa.Const:
+		if x.IsNil() {
+			return nil, true
+		}
+	}
+	return nil, false
 }
 
 // c11ListenerKeeps: Rule G's premise "no error was reported" is read off the collecting listener: its SyntaxError method (the one
@@ -1399,6 +1525,31 @@ func (w *World) dynTypes(v ssa.Value, visitorType string, depth int, seen map[*s
 		}
 	case *ssa.ChangeInterface:
 		return w.dynTypes(x.X, visitorType, depth, seen, vs)
+	case *ssa.UnOp:
+		// a local variable (possibly shared with closures of the function, which carry a result out through it): whatever is
+		// assigned to it anywhere, and the zero value unless an assignment in the variable's own function comes before the read
+		al := cellOfAddr(x.X)
+		if x.Op != token.MUL || al == nil {
+			out["?"] = true
+			return out
+		}
+		stores, escaped := cellStores(al)
+		if escaped {
+			out["?"] = true
+			return out
+		}
+		zero := true
+		for _, st := range stores {
+			if st.Parent() == x.Parent() && st.Parent() == al.Parent() && instrDominates(st, x) {
+				zero = false
+			}
+			for t := range w.dynTypes(st.Val, visitorType, depth, seen, vs) {
+				out[t] = true
+			}
+		}
+		if zero {
+			out["nil"] = true
+		}
 	case *ssa.Extract:
 		if c, ok := x.Tuple.(*ssa.Call); ok {
 			if f := c.Call.StaticCallee(); f != nil {
